@@ -28,7 +28,8 @@ TOL = 1e-9
 REL = 1e-9
 
 CLASSES = ['triclinic', 'monoclinic', 'orthorhombic', 'tetragonal', 'hexagonal', 'rhombohedral', 'cubic', 'mono-gamma',
-           'mono-alpha']
+           'mono-alpha', 'near-special']
+SPECIAL_ANGLES = [90.0, 90.0, 90.0, 60.0, 120.0, 109.4712, 70.5288, 45.0, 135.0]
 
 
 # ------------------------------------------------------------------------------------------------
@@ -77,6 +78,15 @@ def make_cell(rng, cls):
         elif cls == 'hexagonal':
             b = a
             al, be, ga = 90.0, 90.0, 120.0
+        elif cls == 'near-special':
+            # every angle a hair (1e-6 .. 1e-2 degrees) beside a special value: anything that treats "almost 90 / 120 / 60" as
+            # the special value itself, in one routine only, shows as a disagreement between the routines
+            def near(rng=rng):
+                base = rng.choice(SPECIAL_ANGLES)
+                if rng.random() < 0.25:
+                    return base
+                return round(base + rng.choice([1, -1]) * 10 ** rng.uniform(-6, -2), 8)
+            al, be, ga = near(), near(), near()
         elif cls == 'rhombohedral':
             b = c = a
             al = be = ga = rang(rng, 50, 115)
@@ -205,7 +215,8 @@ def make_case(rng, cls=None, ukinds=None):
     return dict(cls=cls, cell=cell, atoms=atoms, pairs=pairs)
 
 
-EDIT_OPS = ['uvals', 'uvals', 'set_uvals', 'uvals_item', 'to_isotropic', 'frac_coords', 'frac_coords', 'add_atom', 'uvals_iso']
+EDIT_OPS = ['uvals', 'uvals', 'set_uvals', 'uvals_item', 'to_isotropic', 'frac_coords', 'frac_coords', 'add_atom', 'uvals_iso',
+            'set_cell', 'set_cell']
 
 
 def make_edits(rng, case):
@@ -225,6 +236,8 @@ def make_edits(rng, case):
             edits.append(dict(op=op, i=i))
         elif op == 'frac_coords':
             edits.append(dict(op=op, i=i, xyz=[rcoord(rng), rcoord(rng), rcoord(rng)]))
+        elif op == 'set_cell':      # the cell changed in place on the same object: shx.cell.set('CELL ...')
+            edits.append(dict(op=op, cell=make_cell(rng, rng.choice(CLASSES))))
         else:
             edits.append(dict(op='add_atom', xyz=[rcoord(rng), rcoord(rng), rcoord(rng)],
                               u=make_u(rng, rng.choice(['pd', 'indef', 'diag']), case['cell'])))
@@ -236,6 +249,8 @@ def final_state(case):
     last op that set the coordinates / the displacement parameters)"""
     st = [dict(xyz=list(a['xyz']), u=u_full(a['u']), last_xyz='parse', last_u='parse', orig=i) for i, a in enumerate(case['atoms'])]
     for k, e in enumerate(case.get('edits') or []):
+        if e['op'] == 'set_cell':
+            continue
         if e['op'] == 'add_atom':
             st.append(dict(xyz=list(e['xyz']), u=list(e['u']), last_xyz='add_atom', last_u='add_atom', orig=None, edit=k))
             continue
@@ -252,11 +267,23 @@ def final_state(case):
     return st
 
 
+def final_cell(case):
+    cell = case['cell']
+    for e in case.get('edits') or []:
+        if e['op'] == 'set_cell':
+            cell = e['cell']
+    return cell
+
+
+def cell_line(cell):
+    return 'CELL 0.71073 ' + ' '.join(repr(float(v)) for v in cell)
+
+
 # ------------------------------------------------------------------------------------------------
 # the real code
 
 def render(case):
-    lines = ['TITL c12', 'CELL 0.71073 ' + ' '.join(repr(float(v)) for v in case['cell']),
+    lines = ['TITL c12', cell_line(case['cell']),
              'ZERR 2 0.001 0.001 0.001 0.01 0.01 0.01', 'LATT -1', 'SFAC C H O', 'UNIT 8 16 4', 'FVAR 0.5']
     for i, a in enumerate(case['atoms']):
         us = ' '.join(f'{v:.8f}' for v in a['u'])
@@ -285,6 +312,10 @@ def observe_impl(case):
     from shelxfile.misc import misc
     from shelxfile.misc.dsrmath import Array, atomic_distance
     shx = Shelxfile()
+    if case.get('preread'):
+        # the same Shelxfile object has read (and answered for) a file with another cell before
+        shx.read_string(render(dict(case, cell=case['preread'])))
+        guard(lambda: [(a.ueq, a.cart_coords) for a in shx.atoms] + [shx.cell.volume, shx.cell.N])
     shx.read_string(render(case))
     atoms = list(shx.atoms)
     if len(atoms) != len(case['atoms']) or shx.cell is None:
@@ -293,6 +324,9 @@ def observe_impl(case):
     cl = guard(lambda: [float(v) for v in list(cell)])
     if cl != [float(v) for v in case['cell']]:
         return dict(error=f'parse: cell {cl}')
+    if case.get('prequery') is False:
+        # nothing is asked before the edits (a value that is built lazily on first use is then built after them)
+        return dict(skipped0=True, edit=guard(lambda: observe_after_edits(shx, atoms, cl, case)))
     out = dict(V=guard(lambda: float(cell.volume)), det=guard(lambda: float(cell.o.m.det)), atoms=[], pairs=[])
     for a, spec in zip(atoms, case['atoms']):
         xyz = spec['xyz']
@@ -323,9 +357,13 @@ def observe_impl(case):
 def observe_after_edits(shx, atoms, cl, case):
     """apply the edits to the parsed objects, then ask every atom again"""
     from shelxfile.misc.dsrmath import atomic_distance
+    from shelxfile.misc import misc
     atoms = list(atoms)
     for k, e in enumerate(case['edits']):
         op = e['op']
+        if op == 'set_cell':
+            shx.cell.set(cell_line(e['cell']))
+            continue
         if op == 'add_atom':
             before = len(list(shx.atoms))
             r = guard(lambda: shx.add_atom(name=f'X{k}', coordinates=list(e['xyz']), element='C', uvals=list(e['u'])))
@@ -346,9 +384,12 @@ def observe_after_edits(shx, atoms, cl, case):
             a.to_isotropic()
         elif op == 'frac_coords':
             a.frac_coords = list(e['xyz'])
-    out = dict(atoms=[], pairs=[])
+    cl = guard(lambda: [float(v) for v in list(shx.cell)])
+    out = dict(atoms=[], pairs=[], cell=cl, V=guard(lambda: float(shx.cell.volume)), det=guard(lambda: float(shx.cell.o.m.det)))
     for a in atoms:
         out['atoms'].append(dict(cart=guard(lambda: as3(a.cart_coords)), frac=guard(lambda: as3(a.frac_coords)),
+                                 cart_shx=guard(lambda: as3(shx.frac_to_cart(list(a.frac_coords)))),
+                                 cart_misc=guard(lambda: as3(misc.frac_to_cart(list(a.frac_coords), list(shx.cell)))),
                                  ueq=guard(lambda: float(a.ueq)), npd=guard(lambda: bool(a.is_npd()))))
     n = len(atoms)
     for i in range(n):
@@ -413,7 +454,7 @@ def evaluate(ctx, cases, stream=None):
             st = final_state(case)
             n = len(st)
             finals[ci] = (st, len(reqs))
-            reqs.append(dict(p='C12', op='cell', cell=case['cell'], pts=[a['xyz'] for a in st],
+            reqs.append(dict(p='C12', op='cell', cell=final_cell(case), pts=[a['xyz'] for a in st],
                              pairs=[[st[i]['xyz'], st[(i + 1) % n]['xyz']] for i in range(n)], us=[a['u'] for a in st]))
             for i, a in enumerate(st):      # the model of the object under the same history, atom by atom
                 reqs.append(hist_request(case, a, i))
@@ -424,6 +465,8 @@ def evaluate(ctx, cases, stream=None):
         if ci in finals and not (isinstance(obs, str) or 'error' in obs):
             k = finals[ci][1]
             check_edits(ctx, case, finals[ci][0], obs.get('edit'), ans[k], ans[k + 1:k + 1 + len(finals[ci][0])])
+        if isinstance(obs, dict) and obs.get('skipped0'):
+            continue
         cls = case.get('cls', '?')
         obl = cell_tag(case)
         base = dict(cls=cls, cell=case['cell'])
@@ -537,9 +580,17 @@ def evaluate(ctx, cases, stream=None):
 def hist_request(case, a, i):
     if a['orig'] is None:
         e0 = case['edits'][a['edit']]
-        return dict(p='C12', op='hist', cell=case['cell'], xyz=e0['xyz'], u=e0['u'], new=True, edits=[])
+        cell = case['cell']
+        for e in case['edits'][:a['edit']]:
+            if e['op'] == 'set_cell':
+                cell = e['cell']
+        later = [dict(op='cell', cell=e['cell']) for e in case['edits'][a['edit'] + 1:] if e['op'] == 'set_cell']
+        return dict(p='C12', op='hist', cell=cell, xyz=e0['xyz'], u=e0['u'], new=True, edits=later)
     es = []
     for e in case['edits']:
+        if e['op'] == 'set_cell':
+            es.append(dict(op='cell', cell=e['cell']))
+            continue
         if e['op'] == 'add_atom' or e['i'] != i:
             continue
         if e['op'] in ('uvals', 'set_uvals'):
@@ -567,22 +618,41 @@ def check_edits(ctx, case, st, obs, r, hist):
         remap = {i: k for k, i in enumerate(keep)}
         es = []
         for k, e in enumerate(edits):
-            if e['op'] == 'add_atom':
+            if e['op'] == 'set_cell':
+                es.append(e)
+            elif e['op'] == 'add_atom':
                 if any(st[i].get('edit') == k for i in idx):
                     es.append(e)
             elif e['i'] in remap:
                 es.append(dict(e, i=remap[e['i']]))
-        return dict(cls=cls, cell=case['cell'], atoms=[case['atoms'][st[i]['orig']] for i in keep], pairs=[], edits=es)
+        sc = dict(cls=cls, cell=case['cell'], atoms=[case['atoms'][st[i]['orig']] for i in keep], pairs=[], edits=es)
+        for key in ('prequery', 'preread'):
+            if key in case:
+                sc[key] = case[key]
+        return sc
 
     if isinstance(obs, str) or obs is None or 'error' in obs:
         ctx.fail(f'C12|edit|history|{obs if isinstance(obs, str) else "error"}'[:80],
                  f'history {edits} on the parsed atoms failed: {obs}', dict(case=dict(case, pairs=[]), stream='edit', actual=obs))
         return
     ops = sorted({e['op'] for e in edits})
+    fcell = final_cell(case)
+    cellby = '|cell-by=set' if 'set_cell' in ops else ''
+    if 'set_cell' in ops:
+        ctx.count(['edit-cell', case['cell'], edits, case.get('prequery', True)], nontrivial=True,
+                  tags=['edit-cell', 'queried-before' if case.get('prequery', True) else 'not-queried-before'])
+        if not close3(obs['cell'], fcell, 1e-12, 1e-12):
+            ctx.fail('C12|edit|cell-by=set|cell', f'after {edits}: list(shx.cell) = {obs["cell"]}, the history says {fcell}',
+                     dict(case=sub([]), stream='edit', expected=fcell, actual=obs['cell']))
+            return
+        for name, got in (('volume', obs['V']), ('det', obs['det'])):
+            if not close(got, r['spec_V']):
+                ctx.fail(f'C12|edit|cell-by=set|{name}', f'after {edits}: {"CELL.volume" if name == "volume" else "det of cell.o"} = {got}, '
+                         f'the current cell {fcell} has volume {r["spec_V"]}', dict(case=sub([]), stream='edit', expected=r['spec_V'], actual=got))
     ctx.count(['edit', case['cell'], [a['xyz'] for a in case['atoms']], edits], nontrivial=True, tags=['edit'] + ['op=' + o for o in ops],
               sample=dict(stream='edit', cell=case['cell'], edits=edits[:2], after=[dict(ueq=o['ueq'], npd=o['npd']) for o in obs['atoms'][:2]]))
     for i, (a, o, rp, ru, hm) in enumerate(zip(st, obs['atoms'], r['pts'], r['us'], hist)):
-        tag = f'xyz-by={a["last_xyz"]}'
+        tag = f'xyz-by={a["last_xyz"]}{cellby}'
         if [float(t) for t in hm['spec_frac']] != [float(t) for t in a['xyz']] or [float(t) for t in hm['spec_uvals']] != [float(t) for t in a['u']]:
             raise RuntimeError(f'harness and Lean spec disagree on what the history {edits} means for atom {i}: {hm} / {a}')
         if isinstance(o['cart'], list) and close3(o['cart'], rp['spec_cart']) and not close3(o['cart'], hm['cart']):
@@ -594,19 +664,25 @@ def check_edits(ctx, case, st, obs, r, hist):
                      dict(case=sub([i]), stream='edit', expected=a['xyz'], actual=o['frac']))
         elif not close3(o['cart'], rp['spec_cart']):
             ctx.fail(f'C12|edit|{tag}|cart_coords', f'after {edits}: atom {i} at {a["xyz"]} has cart_coords {o["cart"]}, the metric '
-                     f'tensor reference for its current position is {rp["spec_cart"]} (cell {case["cell"]})',
+                     f'tensor reference for its current position is {rp["spec_cart"]} (cell {fcell})',
                      dict(case=sub([i]), stream='edit', expected=rp['spec_cart'], actual=o['cart'], model=hm['cart'],
                           model_before_repair=hm['cart_old']))
+        for name, label in (('cart_shx', 'Shelxfile.frac_to_cart(frac_coords)'), ('cart_misc', 'misc.frac_to_cart(frac_coords, list(shx.cell))')):
+            if close3(o['frac'], a['xyz'], 1e-12, 1e-12) and not close3(o[name], rp['spec_cart']):
+                ctx.fail(f'C12|edit|{tag}|{name}', f'after {edits}: {label} of atom {i} at {a["xyz"]} = {o[name]}, the metric tensor '
+                         f'reference for the current cell {fcell} is {rp["spec_cart"]}',
+                         dict(case=sub([i]), stream='edit', expected=rp['spec_cart'], actual=o[name], model=hm['cart_shx'],
+                              model_before_repair=hm['cart_shx_old']))
         # Ueq
         u = a['u']
         iso = not any(u[2:]) and u[0] > 0
         want = u[0] if iso else ru['spec_ueq']
-        tag = f'U-by={a["last_u"]}'
+        tag = f'U-by={a["last_u"]}{cellby}'
         if not any(u[1:]) and not iso:
             pass        # all-zero / negative isotropic value: outside the statement
         elif not close(o['ueq'], want, 1e-12, REL):
             ctx.fail(f'C12|edit|{tag}|ueq', f'after {edits}: atom {i} has U = {u}, Atom.ueq = {o["ueq"]}, one third of the trace of the '
-                     f'Cartesian tensor of its current U is {want} (cell {case["cell"]})',
+                     f'Cartesian tensor of its current U is {want} (cell {fcell})',
                      dict(case=sub([i]), stream='edit', expected=want, actual=o['ueq'], model=ru['ueq_aniso']))
         # positive definiteness (six values written, away from the boundary)
         if any(u[2:]) and ru['spec_pd_lo'] == ru['spec_pd_hi']:
@@ -614,16 +690,17 @@ def check_edits(ctx, case, st, obs, r, hist):
             if o['npd'] != wnpd:
                 ctx.fail(f'C12|edit|{tag}|npd|{"false-negative" if wnpd else "false-positive"}',
                          f'after {edits}: atom {i} has U = {u} which is {"not " if wnpd else ""}positive definite, Atom.is_npd() = {o["npd"]} '
-                         f'(cell {case["cell"]})', dict(case=sub([i]), stream='edit', expected=wnpd, actual=o['npd'], model=ru['npd']))
+                         f'(cell {fcell})', dict(case=sub([i]), stream='edit', expected=wnpd, actual=o['npd'], model=ru['npd']))
     n = len(st)
     for i, (o, rp) in enumerate(zip(obs['pairs'], r['pairs'])):
         j = (i + 1) % n
         lasts = sorted({st[i]['last_xyz'], st[j]['last_xyz']})
+        lasts[-1] += cellby
         for name in ('dist', 'cdist'):
             if not close(o[name], rp['spec']):
                 ctx.fail(f'C12|edit|xyz-by={"+".join(lasts)}|{name}', f'after {edits}: distance of atoms {i}, {j} '
                          f'({"atomic_distance of their frac_coords" if name == "dist" else "from their cart_coords"}) = {o[name]}, '
-                         f'metric tensor gives {rp["spec"]} for their current positions (cell {case["cell"]})',
+                         f'metric tensor gives {rp["spec"]} for their current positions (cell {fcell})',
                          dict(case=sub([i, j]), stream='edit', expected=rp['spec'], actual=o[name]))
 
 
@@ -721,6 +798,10 @@ def run(ctx):
     for _ in range(20000 if thorough else (1500 if (changed or ctx.escalated) else 400)):   # histories on the parsed objects
         c = make_case(ctx.rng)
         c['edits'] = make_edits(ctx.rng, c)
+        if ctx.rng.random() < 0.3:
+            c['prequery'] = False          # the edits come before anything is asked
+        if ctx.rng.random() < 0.15:
+            c['preread'] = make_cell(ctx.rng, ctx.rng.choice(CLASSES))     # the object has read another cell before
         cases.append(c)
     for i in range(0, len(cases), 400):
         evaluate(ctx, cases[i:i + 400])
